@@ -164,17 +164,22 @@ def run(tier="quick", seed=0, use_cache=True):
                        % ("start" if k[0] == "min" else "end"), path=[]))
     res.count("PY-RANGE-TABLE", len(pt))
     it = rg.iter_continue()
-    for ys, visited in sorted(it.items()):
-        want = rg.iter_spec(ys)
-        if visited != want:
-            res.findings.add(dict(
-                rule="ITER-CONTINUE", function="_TreeItems.__iter__", file=rg.REL, line=1,
-                construct="leaves yielding %s: visits %s (specified %s)" % (ys, visited, want),
-                detail="the lazy sequence must continue with the next leaf "
-                       "unless a leaf after the first yielded nothing (the "
-                       "first leaf may legitimately yield nothing when the "
-                       "lower bound falls into the gap after its last key)", path=[]))
-    res.count("ITER-CONTINUE", len(it))
+    n_it = 0
+    for label, args in rg.ITER_ARGS:
+        for ys, visited in sorted(rg.iter_continue(args).items()):
+            n_it += 1
+            want = rg.iter_spec(ys)
+            if visited != want:
+                res.findings.add(dict(
+                    rule="ITER-CONTINUE", function="_TreeItems.__iter__", file=rg.REL, line=1,
+                    construct="%sleaves yielding %s: visits %s (specified %s)" % (
+                        "" if args is None else label + ", ", ys, visited, want),
+                    detail="the lazy sequence must continue with the next leaf "
+                           "unless a leaf after the first yielded nothing (the "
+                           "first leaf may legitimately yield nothing: the lower "
+                           "bound falls into the gap after its last key, or its "
+                           "only key is the excluded overall smallest)", path=[]))
+    res.count("ITER-CONTINUE", n_it)
     rg.bound_norm_py(res)
     rg.tree_exclude_py(res)
     mm = minmax.py_check(res)
